@@ -35,13 +35,13 @@ Context `{Sig}.
 
 Definition has_kind (ks : kinds) (k : N) : bool := existsb (fun kc => fst kc =? k) ks.
 
-(** [CMap2::is_free]: three non-transactional reads *)
+(** [is_free_transac] of vertices.rs: the three images read through the transaction *)
 Definition is_free_atomic (d : N) : prog bool :=
-  b0 <- rdB_atomic 0 d ;;
+  b0 <- rdB 0 d ;;
   if negb (b0 =? 0) then Ret false else
-  b1 <- rdB_atomic 1 d ;;
+  b1 <- rdB 1 d ;;
   if negb (b1 =? 0) then Ret false else
-  b2 <- rdB_atomic 2 d ;;
+  b2 <- rdB 2 d ;;
   Ret (b2 =? 0).
 
 Definition write_vertex (d : N) (v : V) : prog unit := _ <- rdV d ;; wrV d (Some v).
@@ -346,7 +346,21 @@ Definition earclip_cell (n : N) (ks : kinds) (ccw : bool) (f : N) (nds : list N)
     if Nat.eqb k 3 then Ret tt else Panic AssertFailed
   end.
 
+Definition opt_anchor (ks : kinds) (k : N) (p : prog (option A)) : prog (option A) :=
+  if has_kind ks k then p else Ret None.
+
 (** ** remeshing/swap.rs *)
+Definition restore_anchor (n : N) (d : N) (oa : option A) : prog unit :=
+  match oa with
+  | Some a => vid <- vertex_id_tx n d ;; write_attr KVA vid a
+  | None => Ret tt
+  end.
+Definition restore_vertex (n : N) (d : N) (ov : option V) : prog unit :=
+  match ov with
+  | Some v => vid <- vertex_id_tx n d ;; write_vertex vid v
+  | None => Ret tt
+  end.
+
 Definition swap_edge (n : N) (ks : kinds) (e : N) : prog unit :=
   if e =? 0 then Fail ESwapNullEdge else
   let l := e in
@@ -358,15 +372,21 @@ Definition swap_edge (n : N) (ks : kinds) (e : N) : prog unit :=
   (* `a != b0l || ..`: the second read only happens when the first test passes *)
   bad <- (if negb (x =? b0l) then Ret true else y <- rdB 1 b1r ;; Ret (negb (y =? b0r))) ;;
   if bad then Fail ESwapBadTopology else
+  vid_a <- vertex_id_tx n l ;; vid_b <- vertex_id_tx n r ;;
+  vid_c <- vertex_id_tx n b0l ;; vid_d <- vertex_id_tx n b0r ;;
+  va <- rdV vid_a ;; vb <- rdV vid_b ;; vc <- rdV vid_c ;; vd <- rdV vid_d ;;
+  aa <- opt_anchor ks KVA (rdA KVA vid_a) ;; ab <- opt_anchor ks KVA (rdA KVA vid_b) ;;
+  ac <- opt_anchor ks KVA (rdA KVA vid_c) ;; ad <- opt_anchor ks KVA (rdA KVA vid_d) ;;
   one_unsew n ks l ;;; one_unsew n ks r ;;;
   one_unsew n ks b0l ;;; one_unsew n ks b0r ;;;
   one_unsew n ks b1l ;;; one_unsew n ks b1r ;;;
   one_sew n ks l b0r ;;; one_sew n ks b0r b1l ;;; one_sew n ks b1l l ;;;
-  one_sew n ks r b0l ;;; one_sew n ks b0l b1r ;;; one_sew n ks b1r r.
+  one_sew n ks r b0l ;;; one_sew n ks b0l b1r ;;; one_sew n ks b1r r ;;;
+  (* the corners are put back under the new vertex ids *)
+  restore_vertex n b1r va ;;; restore_vertex n b1l vb ;;; restore_vertex n l vc ;;; restore_vertex n r vd ;;;
+  restore_anchor n b1r aa ;;; restore_anchor n b1l ab ;;; restore_anchor n l ac ;;; restore_anchor n r ad.
 
 (** ** remeshing/cut.rs *)
-Definition opt_anchor (ks : kinds) (k : N) (p : prog (option A)) : prog (option A) :=
-  if has_kind ks k then p else Ret None.
 
 Definition reattach_face_anchor (n : N) (ks : kinds) (a : option A) (nda ndb : N) : prog unit :=
   match a with
@@ -391,7 +411,8 @@ Definition cut_outer_edge (n : N) (ks : kinds) (e nd1 nd2 nd3 : N) : prog unit :
   ov1 <- rdV vid1 ;; ov2 <- rdV vid2 ;;
   match ov1, ov2 with
   | Some v1, Some v2 =>
-    write_vertex nd1 (v_avg v1 v2) ;;;
+    vid_new <- vertex_id_tx n nd1 ;;
+    write_vertex vid_new (v_avg v1 v2) ;;;
     one_unsew n ks ld ;;;
     one_unsew n ks b1ld ;;;
     one_sew n ks ld nd1 ;;;
@@ -423,7 +444,8 @@ Definition cut_inner_edge (n : N) (ks : kinds) (e nd1 nd2 nd3 nd4 nd5 nd6 : N) :
   ov1 <- rdV vid1 ;; ov2 <- rdV vid2 ;;
   match ov1, ov2 with
   | Some v1, Some v2 =>
-    write_vertex nd1 (v_avg v1 v2) ;;;
+    vid_new <- vertex_id_tx n nd1 ;;
+    write_vertex vid_new (v_avg v1 v2) ;;;
     two_unsew n ks ld ;;;
     one_unsew n ks ld ;;;
     one_unsew n ks b1ld ;;;
